@@ -49,6 +49,11 @@ T['C05'] = ("""C05 Null and unknown Terraform values reset the target to zero or
     ('C05_prior_irrelevant', 'from_field_reset_target', 'nor does the prior content of the target'),
     ('C05_untouched', 'from_fields_untouched', 'Go fields the schema does not describe are left untouched'),
     ('C05_oneof_reset', 'from_fields_oneof_none', 'a oneof all of whose branches are null or unknown is nil even if the target held a branch'),
+    ('C05_prior_independent_partial', 'copy_from_prior_independent_partial', 'message level: the whole result of CopyFrom (value and diagnostics) does not depend on what the target struct held before — longer or shorter lists, other map keys, set pointers, other oneof branches — provided every top-level attribute is present with the right constructor (null, unknown or known; nested content arbitrary); class: no custom type and no field promoted from a nullable embedded message at top level'),
+    ('C05_prior_independent_lookup_partial', 'copy_from_prior_independent_lookup_partial', 'the same field by field for targets whose Go fields come in different orders'),
+    ('C05_prior_independent_rt_partial', 'copy_from_prior_independent_rt_partial', 'instance for the class of the round trip theorem'),
+    ('C05_all_null_resets_partial', 'copy_from_all_null_resets_partial', 'an object all of whose attributes are null or unknown yields the zero message (scalars zero, pointers and oneofs nil, lists and maps empty, by-value messages zero recursively) without diagnostics, whatever the target held'),
+    ('C05_missing_keeps_prior', 'from_field_unshaped_keeps_prior', "boundary: an attribute that is missing or of another constructor is reported and leaves the field as the target had it (that is C06's business)"),
 ])
 
 T['C06'] = ("""C06 Malformed input becomes diagnostics, never a panic.""", [
@@ -57,6 +62,11 @@ T['C06'] = ("""C06 Malformed input becomes diagnostics, never a panic.""", [
     ('C06_to_missing_type', 'to_field_custom_missing', 'a field whose attribute type is missing from the target yields exactly the WriteMissing diagnostic of its path and leaves the attributes alone'),
     ('C06_diag_once', 'diag_append_idem', 'a diagnostic is reported once however often it is raised'),
     ('C06_diag_present', 'diag_append_mem', 'and it is reported'),
+    ('C06_to_missing_type_any_kind', 'to_field_missing_type', "CopyTo, every kind of field: an attribute type missing from the target yields exactly the WriteMissing diagnostic of the field's path, leaves every attribute alone, and the other fields are still written (the fold goes on)"),
+    ('C06_to_never_panics_partial', 'copy_to_never_panics_partial', 'CopyTo returns (never panics) for every typed source on EVERY object target — types missing or of the wrong kind, held values of the wrong kind, null / unknown / attribute-less objects, at any depth — except where the element type of a list or map of messages is not an object type (class tf_ok)'),
+    ('C06_to_no_diag_partial', 'copy_to_no_diag_partial', "and when the target carries the schema's types along every path that is written, whatever values it holds, no diagnostic is produced"),
+    ('C06_to_boundary_list_elem', 'to_field_objlist_elem_panics', "boundary, outside the property's quantifier (types are removed there, never replaced): a list of messages whose target element type is not an object type panics (one-value type assertion o.ElemType.(types.ObjectType))"),
+    ('C06_to_boundary_map_elem', 'to_field_objmap_elem_panics', 'the same for a map of messages'),
 ])
 
 T['C07'] = ("""C07 Oneof groups stay exclusive in both directions.""", [
@@ -86,6 +96,10 @@ T['C09'] = ("""C09 Refresh: in-place CopyTo makes collections and known values f
     ('C09_map_nil', 'to_field_map_nil', 'a nil source map leaves no stale key'),
     ('C09_idempotent_scalar', 'to_field_prim_idem', 'repeating the call changes nothing (scalar fields)'),
     ('C09_no_unknown', 'copy_to_clean', 'nothing unknown is left when the earlier state was fully known'),
+    ('C09_refresh_rel_partial', 'copy_to_refresh_rel_partial', 'message level: copying a second value into the object an earlier copy produced never fails and relates earlier object, fresh copy and in-place result attribute by attribute at every depth: lists and maps hold exactly the elements of a fresh copy, every payload is the fresh one wherever the fresh value is non-null, every null flag is the fresh one or the earlier one, nothing is unknown (class tf_ok)'),
+    ('C09_prior_rel_partial', 'copy_to_prior_rel_partial', 'the same for any well-formed earlier object (schema types at every depth, arbitrary flags, payloads and elements, e.g. read from state), and the result is well-formed again, so refreshes chain'),
+    ('C09_idempotent_partial', 'copy_to_idem_partial', 'repeating the same call on its own result changes nothing (syntactic equality, message level)'),
+    ('C09_fresh_equality_refuted', 'Counter.refresh_equality_false', 'the stronger reading "in-place equals fresh" is false of the code: null flags are sticky (a scalar that was zero keeps Null when it becomes non-zero; a nullable message that was nil keeps Null when set) — the property is worded accordingly'),
 ])
 
 T['C10'] = ("""C10 Schema flags and metadata follow the configuration.""", [
